@@ -7,7 +7,7 @@ mkdir -p $D
 git -C $WT diff -- src > $D/patch.diff
 test -s $D/patch.diff || { echo "empty diff"; exit 2; }
 cp $WT/demo_*.py $D/ 2>/dev/null || true
-DEMO=$(ls $D/demo_*.py | head -1)
+DEMO=$(ls $WT/demo_*.py | head -1)
 cd $WT
 echo "--- tests with change:"; PYTHONPATH=$WT/src /venv/bin/python -m pytest -q -p no:cacheprovider --continue-on-collection-errors 2>&1 | tail -1 | tee $D/tests_with_change.txt
 echo "--- demo with change:"; set +e; PYTHONPATH=$WT/src /venv/bin/python $DEMO > $D/demo_with_change.txt 2>&1; echo "exit=$?" | tee -a $D/demo_with_change.txt; tail -5 $D/demo_with_change.txt
